@@ -157,7 +157,7 @@ def modelStep (s : State) (w : List String) : Option (State × String × Bool ×
       | none => "dup"
       | some x => if x.status = stopped then "fail" else "ok"
     pure (s, r, false, [])
-  | ["spawn", k, n, how] => do
+  | "spawn" :: k :: n :: how :: _flavour => do
     let k ← k.toNat?; let n ← parseOptNat? n
     let op0 := match n with
       | some n => Op.register k n
@@ -221,7 +221,7 @@ def step (d : DState) (op impl : String) : DState × StepOut :=
             let res := if ians == "ok" then Obs.ok else if ians == "dup" then Obs.dup else Obs.bad
             if okRegister p v k n res then [] else ["register-not-atomic"]
           | _, _ => []
-        | ["spawn", k, n, _], some v, some p =>
+        | "spawn" :: k :: n :: _, some v, some p =>
           match k.toNat?, n.toNat? with
           | some k, some n =>
             -- the registration half of a whole spawn: dup ⇔ name was taken
